@@ -33,7 +33,7 @@
 //!   {"ev":"lmemory"|"lentries"|"lsymbols"|"lpentry", ...}     same payloads as above
 
 use falcon::il;
-use falcon::loader::{Elf, ElfLinker, Json, Loader};
+use falcon::loader::{Elf, ElfLinker, Json, Loader, Pe};
 use falcon::translator::Options;
 use falcon::memory::backing::Memory;
 use falcon::memory::MemoryPermissions;
@@ -1298,6 +1298,34 @@ fn mode_json(out: &mut Out, n: u64, dir: &str, rng: &mut Rng) {
 }
 
 // ------------------------------------------------------------------------------------------
+// the PE loader on real files (corpus/c19/*.exe, *.dll; descriptions from llvm-readobj)
+// ------------------------------------------------------------------------------------------
+fn pe_session(out: &mut Out, id: u64, root: &str, item: &Value, rng: &mut Rng) {
+    let rel = item["path"].as_str().unwrap();
+    let bytes = std::fs::read(format!("{}/{}", root, rel)).expect("read pe file");
+    out.emit(&json!({ "ev": "begin", "id": id, "src": "pe", "path": rel, "lift": item["lift"], "pdesc": item["pdesc"] }));
+    out.emit(&json!({ "ev": "load", "base": addr(0), "users": [] }));
+    let r = guard(|| Pe::new(bytes.clone()));
+    out.emit(&json!({ "ev": "new", "res": r.json(|_| json!(1)) }));
+    if let Some(l) = r.ok() {
+        out.emit(&json!({ "ev": "arch", "name": l.architecture().name(),
+            "endian": match l.architecture().endian() { falcon::architecture::Endian::Big => "big", falcon::architecture::Endian::Little => "little" } }));
+        queries("", out, &l, rng);
+        if item["lift"].as_bool().unwrap_or(false) {
+            lift_events("", out, &l);
+        }
+    }
+}
+
+fn mode_pe(out: &mut Out, list: &str, rng: &mut Rng) {
+    let l: Value = serde_json::from_str(&std::fs::read_to_string(list).expect("read list")).expect("list json");
+    let root = arg_str("root", "/verif");
+    for (id, item) in l.as_array().expect("list").iter().enumerate() {
+        pe_session(out, id as u64, &root, item, rng);
+    }
+}
+
+// ------------------------------------------------------------------------------------------
 // real files, dump, replay
 // ------------------------------------------------------------------------------------------
 fn mode_files(out: &mut Out, list: &str, rng: &mut Rng) {
@@ -1361,6 +1389,10 @@ fn mode_replay(out: &mut Out, input: &str, dir: &str, rng: &mut Rng) {
         json_session(out, s["id"].as_u64().unwrap_or(0), dir, &s["jdesc"], rng);
         return;
     }
+    if s["src"] == "pe" {
+        pe_session(out, s["id"].as_u64().unwrap_or(0), &arg_str("root", "/verif"), s, rng);
+        return;
+    }
     let bytes = if let Some(h) = s["file"].as_str() {
         unhex(h)
     } else {
@@ -1387,6 +1419,7 @@ fn main() {
         "enum" => mode_enum(&mut out, arg_u64("maxsz", 2), &mut rng),
         "code" => mode_code(&mut out, arg_u64("n", 20), &mut rng),
         "json" => mode_json(&mut out, arg_u64("n", 20), &dir, &mut rng),
+        "pe" => mode_pe(&mut out, &arg_str("list", ""), &mut rng),
         "files" => mode_files(&mut out, &arg_str("list", ""), &mut rng),
         "link" => mode_link(&mut out, arg_u64("n", 10), &dir, &mut rng),
         "dump" => mode_dump(&mut out, arg_u64("n", 20), &dir, &mut rng),
